@@ -384,6 +384,30 @@ def rule_escape(report, prog, res):
             report.stats['unresolved_%s_%s' % (role, m)] = unresolved
 
 
+def rule_deadlines(report, prog, rule='C04-R5'):
+    """A loop that is bounded by a deadline stays bounded only while the deadline is not moved: in nfc.dep no loop assigns the
+    deadline variable it (or the helpers it calls with it) is bounded by -- the peer could otherwise keep the loop alive for ever by
+    answering just enough (e.g. every attention request)."""
+    n = 0
+    for q, f in sorted(prog.functions.items()):
+        if not q.startswith('nfc.dep.'):
+            continue
+        for lp in walk_no_nested(f.node):
+            if not isinstance(lp, (ast.While, ast.For)):
+                continue
+            names = set(x.id for x in ast.walk(lp) if isinstance(x, ast.Name) and 'deadline' in x.id)
+            if not names:
+                continue
+            n += 1
+            moved = [st for st in ast.walk(lp) if isinstance(st, (ast.Assign, ast.AugAssign)) and any(
+                isinstance(t, ast.Name) and t.id in names for tt in (st.targets if isinstance(st, ast.Assign) else [st.target]) for t in ast.walk(tt))]
+            report.check(not moved, rule, key(f.qname, 'the deadline is not moved inside the loop it bounds', lp.test if isinstance(lp, ast.While) else lp.iter),
+                         f.loc(moved[0]) if moved else f.loc(lp),
+                         '%s: `%s` re-arms the deadline inside the loop that the deadline bounds: a peer that keeps answering keeps the '
+                         'caller in the loop for ever' % (f.qname, norm(moved[0]) if moved else ''))
+    report.floor(rule + ' deadline loops', n, 4)
+
+
 def rule_loops(report, prog):
     """Every loop in the NFC-DEP machinery has a recognised progress argument."""
     n = 0
@@ -448,14 +472,34 @@ def run(report, prog, tier):
     rule_pni(report, prog)
     rule_frames(report, prog)
     c19.rule_budget(report, prog, res, rule='C04-R3')
+    c19.rule_dep_miu(report, prog, rule='C04-R3')
+    # recovery rests on how the drivers classify what the chip reports: a corrupted frame has to surface as TransmissionError (the
+    # protocol layer answers with NACK / keeps waiting), only a lost field as BrokenLinkError.  The mapping obligations of C13-R2 are
+    # obligations of this property too (reported here as C04-R8).
+    from . import c13
+    before = len(report.failures)
+    c13.rule_mapping(report, prog)
+    if 'C13-R2' in report.obligations:
+        report.obligations['C04-R8'] = report.obligations.pop('C13-R2')
+    for f_ in report.failures[before:]:
+        if f_.rule == 'C13-R2':
+            f_.rule = 'C04-R8'
+    for s_ in report.samples:
+        if s_.get('rule') == 'C13-R2':
+            s_['rule'] = 'C04-R8'
     rule_escape(report, prog, res)
     rule_loops(report, prog)
+    rule_deadlines(report, prog)
     report.trusted += ['interface summary: ContactlessFrontend.exchange raises only CommunicationError subclasses or IOError (C13)']
     report.assumptions += ['implicit exceptions (IndexError on short frames) are covered by the buffer rules of C07']
 
 
 D = 'nfc.dep'
 MUTANTS = [
+    ('initiator-deadline-rearmed-after-atn', DEP, """                request_attention(self, 2, rwt, deadline)
+                continue""", """                request_attention(self, 2, rwt, deadline)
+                deadline = time.time() + rwt
+                continue""", 'C04-R5'),
     ('target-first-request-returned-unchained', DEP, """            req = self.send_dep_res_recv_dep_req(None, deadline)
             self.pni = 0
 """, """            req = self.send_dep_res_recv_dep_req(None, deadline)
